@@ -24,13 +24,13 @@ open ActixModel.Panic ActixModel.Panic.Outcome
 /-- **C19_no_panic_chunk_size**: the chunk-size accumulator. `size.checked_mul(16)` is checked
 in the code, the following `*size += rem` is not — it cannot overflow because a multiple of 16
 that fits in `u64` leaves room for a hex digit.  For every register value and every byte. -/
-theorem C19_no_panic_chunk_size (rdr : List Nat) (size : Nat) :
-    NoPanic (Chunk.readSize rdr size) := Chunk.readSize_noPanic rdr size
+theorem C19_no_panic_chunk_size (rdr : List Nat) (size : Nat) (first : Bool) :
+    NoPanic (Chunk.readSize rdr size first) := Chunk.readSize_noPanic rdr size first
 
-example : Chunk.readSize [102] 1152921504606846975 = .ok (.ready .size [] 18446744073709551615 none) := by
+example : Chunk.readSize [102] 1152921504606846975 false = .ok (.ready .sizeDigit [] 18446744073709551615 none) := by
   rfl
 
-/-- **C19_no_panic_chunked_step**: one `ChunkedState::step` from any of the ten states. -/
+/-- **C19_no_panic_chunked_step**: one `ChunkedState::step` from any of the eleven states. -/
 theorem C19_no_panic_chunked_step (st : Chunk.CState) (rdr : List Nat) (size : Nat) :
     NoPanic (Chunk.step st rdr size) := Chunk.step_noPanic st rdr size
 
@@ -210,26 +210,23 @@ source) for every header and every `u64` size — its own subtractions are all g
 theorem C19_no_panic_http_range (header : List Nat) (size : Nat) (hs : size ≤ u64Max) :
     NoPanic (Range.parseBytes header size) := (Range.parseBytes_spec header size hs).1
 
-/- Full statement — false of the code in this tree (DESIGN §6 F7, known finding
-   `files-range-empty-file-underflow`, repaired by work-stream C16):
-     theorem C19_no_panic_files_range : ∀ header size, size ≤ u64Max → NoPanic (Range.fileRange header size) -/
+/-- **C19_no_panic_files_range**: full strength — every header, every `u64` file size including
+the empty file (DESIGN §6 F7 was `Range: bytes=-5` on a 0-byte file; repaired by work-stream
+C16's `fix:` — a zero-length range is answered 416 before `offset + length - 1` is computed). -/
+theorem C19_no_panic_files_range (header : List Nat) (size : Nat) (hs : size ≤ u64Max) :
+    NoPanic (Range.fileRange header size) := Range.fileRange_noPanic header size hs
 
-/-- **C19_no_panic_files_range_partial**: extra hypothesis `0 < size` (the file is not empty). -/
-theorem C19_no_panic_files_range_partial (header : List Nat) (size : Nat) (hpos : 0 < size)
-    (hs : size ≤ u64Max) : NoPanic (Range.fileRange header size) :=
-  Range.fileRange_noPanic header size hpos hs
-
-example : (0 : Nat) < 10 ∧ (10 : Nat) ≤ u64Max := by decide
-
-/-- `Range: bytes=-5` on a 0-byte file panics in `offset + length - 1` -/
-theorem witness_files_range_empty_file :
-    (Range.fileRange [98, 121, 116, 101, 115, 61, 45, 53] 0).isPanic = true := by decide
+/-- the former F7 witness input is now "416 Range Not Satisfiable" -/
+theorem C19_files_range_empty_file_unsatisfiable :
+    (match Range.fileRange [98, 121, 116, 101, 115, 61, 45, 53] 0 with
+     | .ok (.unsatisfiable 0) => true
+     | _ => false) = true := by decide
 
 /-- **C19_files_range_bounds**: the announced `Content-Range` lies inside the file. -/
-theorem C19_files_range_bounds (header : List Nat) (size f l sz len : Nat) (hpos : 0 < size)
+theorem C19_files_range_bounds (header : List Nat) (size f l sz len : Nat)
     (hs : size ≤ u64Max) (h : Range.fileRange header size = .ok (.partial_ f l sz len)) :
     f ≤ l ∧ l < size ∧ sz = size ∧ l + 1 = f + len :=
-  Range.fileRange_bounds header size f l sz len hpos hs h
+  Range.fileRange_bounds header size f l sz len hs h
 
 /-! ## 5. `ContentDisposition::from_raw` (`content_disposition.rs`): byte-index slicing of a `String` -/
 
